@@ -363,3 +363,30 @@ def replay_c19(ctx, path):
 
 
 CHECKS["C19"] = check_c19
+
+
+# ----------------------------------------------------------------------------- self-validation: determinism proof (DESIGN.md section 9)
+def selftest_determinism(ctx):
+    """Every engine: N seeds, executed in separate processes at 16, 16 again, 5 and 1 worker(s); the per-run fingerprints
+    (hash of the whole event log: ops, returns, output digests, heap events, CPU traps, scheduler segments) must be identical."""
+    n = 2000 if ctx.tier == "quick" else 20000
+    bad = 0
+    plan = [(p, "plain", "objsim") for p in sorted(props.OBJSIM)] + [("C10", "o0", "objsim"), ("C11", "asan", "objsim"), ("C08", "tsanhook", "objsim"), ("C18", "tsanhook", "thrsim"), ("C18", "tsanhook_o0", "thrsim")]
+    for pid, fl, exe in plan:
+        d = props.build_flavour(ctx, fl, targets=(exe,))
+        fps = []
+        for workers in (16, 16, 5, 1):
+            out = os.path.join(ctx.B, "out", "selftest-%s-%s-%d-%d.json" % (pid, fl, workers, os.getpid()))
+            os.makedirs(os.path.dirname(out), exist_ok=True)
+            cmd = [os.path.join(d, exe), "--prop", pid, "--seed", str(ctx.seed), "--runs", str(n if pid != "C13" else 600), "--fingerprints", "--workers", str(workers), "--out", out,
+                   "--outdir", os.path.join(ctx.B, "out"), "--replaydir", os.path.join(ctx.B, "out")]
+            r = _run_json(cmd, out, "selftest %s %s" % (pid, fl))
+            fps.append((r.get("fingerprint_of_fingerprints"), r.get("fingerprints")))
+        ok = len(set(fps)) == 1 and fps[0][0]
+        print("%-4s %-12s %-7s %s runs x {16,16,5,1} workers: %s  %s" % (pid, fl, exe, fps[0][1], "identical" if ok else "DIFFERENT", fps[0][0] if ok else fps))
+        bad += 0 if ok else 1
+    print("selftest-determinism: %s" % ("all fingerprints identical" if not bad else "%d engine/flavour combinations differ" % bad))
+    return 2 if bad else 0
+
+
+CHECKS["selftest-determinism"] = selftest_determinism
